@@ -56,6 +56,16 @@ NextTime(now, unit, n, mod) ==
     [] unit = "second" -> LET inc == IF mod THEN n - (sec % n) ELSE n IN Norm(now.z, now.s + inc)
 
 
+\* The same schedule for intervals of hours / minutes / seconds whose count does not fit TLC's 32-bit integers once it
+\* is turned into seconds (the deserializer admits up to 1000 years: 31 557 600 000 seconds): the count is given as
+\* n = q * K + r with K units per day (24, 1440, 86400) and 0 <= r < K; n exceeds every position inside the enclosing
+\* period, so "n - (pos % n)" is n - pos.
+NextTimeBig(now, unit, q, r, mod) ==
+  LET h == (now.s \div 3600) mi == ((now.s % 3600) \div 60) sec == now.s % 60 IN
+  CASE unit = "hour"   -> Norm(now.z + q, (IF mod THEN 0 ELSE h * 3600) + r * 3600)
+    [] unit = "minute" -> Norm(now.z + q, h * 3600 + (IF mod THEN 0 ELSE mi * 60) + r * 60)
+    [] unit = "second" -> Norm(now.z + q, now.s - (IF mod THEN sec ELSE 0) + r)
+
 Units == {"year", "month", "week", "day", "hour", "minute", "second"}
 Le(a, b) == ~Lt(b, a)
 AddSecs(a, k) == Norm(a.z + (k \div 86400), a.s + (k % 86400))
